@@ -397,9 +397,8 @@ Print Assumptions C11_head_nonvacuous.
    the stream position is the sender's.  For /repo HEAD (and [repaired]) no further hypothesis is needed.  For flag sets
    that always replay the window (f_window: /repo before cd04fe0) the hypothesis [window_covers] — every live session
    still has an entry in the retained window — is needed (C11_bulk_window_before_cd04fe0_refuted).
-   PARTIAL with respect to the property: the pool reservations after a bulk sync are compared by the correspondence
-   check only (no theorem). *)
-Theorem C11_bulk_then_stream_store_converges_partial :
+   The pool reservations are C11_bulk_then_stream_pools_exact below. *)
+Theorem C11_bulk_then_stream_store_converges :
   forall fl g0 cap g evs1 evs2,
   f_range fl = false -> f_stale fl = true -> f_bulk fl = false ->
   g <> 0%N -> (forall e, In e (evs1 ++ evs2) -> s_srg (fst e) = g) ->
@@ -410,7 +409,7 @@ Theorem C11_bulk_then_stream_store_converges_partial :
   y_live y = live_run (evs1 ++ evs2) /\ y_panics y = O /\ next_of y g = length (y_sent y) /\
   forall k, aget keyeqb k (rc_store (y_recv y)) = aget keyeqb k (expected_store (y_live y)).
 Proof. exact bulk_then_stream. Qed.
-Print Assumptions C11_bulk_then_stream_store_converges_partial.
+Print Assumptions C11_bulk_then_stream_store_converges.
 
 (* Historical (fixed in cd04fe0): without the coverage hypothesis — capacity 2, three sessions created, fresh standby,
    bulk sync — session 1 is missing on the standby *)
@@ -509,3 +508,41 @@ Example C11_sender_roles_nonvacuous :
   map (option_map q_seq) (ring_list (ss_ring st)) = [Some 1; Some 2; Some 3; Some 4; Some 5]%N /\ ss_seq st = 5%N.
 Proof. vm_compute. repeat split; reflexivity. Qed.
 Print Assumptions C11_sender_roles_nonvacuous.
+
+(* ... and the standby's pools hold exactly the live sessions' reservations (same hypotheses, plus the receiver's release
+   behaviour since 88d6de6, a registry without leases and an active node on which no two live sessions ever claim the
+   same family/pool/key).  With C11_bulk_then_stream_store_converges this is the full property for a fresh standby that
+   joins at ANY point of ANY history, whether the backlog has wrapped or not, on /repo HEAD. *)
+Theorem C11_bulk_then_stream_pools_exact :
+  forall fl g0 cap g evs1 evs2,
+  f_range fl = false -> f_stale fl = true -> f_bulk fl = false -> f_drop fl = false -> f_relall fl = false ->
+  g <> 0%N -> (forall e, In e (evs1 ++ evs2) -> s_srg (fst e) = g) ->
+  (0 < cap <= max_make)%Z -> (Z.of_nat (length (evs1 ++ evs2)) < two63 - 1)%Z -> evs1 <> [] ->
+  (f_window fl = true -> window_covers cap evs1 g) ->
+  fresh g0 ->
+  (forall i, (i <= length (evs1 ++ evs2))%nat -> uniq g0 (live_run (firstn i (evs1 ++ evs2)))) ->
+  let y := sys_run fl (sys_init cap [g] g0)
+             (ev_ops evs1 ++ [OBulk g] ++ ev_ops evs2 ++ repeat (ODeliver g) (length evs2)) in
+  forall x sid, lease_at (rc_reg (y_recv y)) x = Some sid <-> In (x, sid) (expected_leases g0 (y_live y)).
+Proof. exact bulk_then_stream_pools. Qed.
+Print Assumptions C11_bulk_then_stream_pools_exact.
+
+Example C11_bulk_pools_nonvacuous :
+  (* three sessions with addresses, capacity 2 (wrapped: /repo HEAD takes the snapshot path), then session 2 is released
+     and session 3 takes its address: hypotheses hold for [head]; the standby ends with sessions 1 and 3 *)
+  let s1 := ex_sess 1 (Some ex_a) 1 in
+  let s2 := ex_sess 2 (Some ex_b) 1 in
+  let s3 := ex_sess 3 None 0 in
+  let s3' := ex_sess 3 (Some ex_b) 1 in
+  let evs1 := [(s1, false); (s2, false); (s3, false)] in
+  let evs2 := [(s2, true); (s3', false)] in
+  let y := sys_run head (sys_init 2 [1%N] ex_reg)
+             (ev_ops evs1 ++ [OBulk 1] ++ ev_ops evs2 ++ repeat (ODeliver 1) (length evs2)) in
+  f_window head = false /\ fresh ex_reg /\
+  (forall i, (i <= length (evs1 ++ evs2))%nat -> uniq ex_reg (live_run (firstn i (evs1 ++ evs2)))) /\
+  leases_of (rc_reg (y_recv y)) = [((4, 1, ex_a)%N, 1%N); ((4, 1, ex_b)%N, 3%N)] /\
+  expected_leases ex_reg (y_live y) = [((4, 1, ex_a)%N, 1%N); ((4, 1, ex_b)%N, 3%N)].
+Proof.
+  cbv zeta. split; [reflexivity|]. split; [exact ex_reg_fresh|]. split; [ex_uniq|]. vm_compute. split; reflexivity.
+Qed.
+Print Assumptions C11_bulk_pools_nonvacuous.
